@@ -497,15 +497,30 @@ Section Tbl.
                   [mkF (f_uid rep) (f_pfx rep) e])
       end.
 
-    Definition h3_group (g : list ufactor) : res_t (unit * T) :=
+    (* one group of heuristic 3: Ok None = the group cannot be converted to the guessed
+       target (the code then returns the quantity unchanged) *)
+    Definition h3_group (g : list ufactor) : res_t (option (unit * T)) :=
       match h3_target g with
       | None => Err Panic
       | Some target =>
           match convert_to (from_unit g) target with
-          | Ok c => Ok (target, q_val c)
-          | Err _ => Err Panic                (* .unwrap() *)
+          | Ok c => Ok (Some (target, q_val c))
+          | Err _ => Ok None                  (* let Ok(converted) = ... else { return self.clone() } *)
           end
       end.
+
+    (* the loop over the groups; Ok None once a group has failed (early return) *)
+    Definition h3_step (acc : res_t (option (unit * T))) (g : list ufactor) : res_t (option (unit * T)) :=
+      bind acc (fun o =>
+        match o with
+        | None => Ok None
+        | Some (su, fac) =>
+            bind (h3_group g) (fun r =>
+              match r with
+              | None => Ok None
+              | Some (target, cv) => Ok (Some (umul su target, n_mul N fac cv))
+              end)
+        end).
 
     Definition full_simplify (q : quantity) : res_t quantity :=
       if negb (q_simp q) then Ok q
@@ -536,12 +551,11 @@ Section Tbl.
             | None =>
                 (* heuristic 3 *)
                 let groups := chunk_by_key (canon (q_unit q)) in
-                let step acc g :=
-                    bind acc (fun '(su, fac) =>
-                    bind (h3_group g) (fun '(target, cv) =>
-                    Ok (umul su target, n_mul N fac cv))) in
-                bind (fold_left step groups (Ok ([], n_one N))) (fun '(su, fac) =>
-                Ok (qnew (n_mul N (q_val q) fac) (canon su)))
+                match fold_left h3_step groups (Ok (Some ([], n_one N))) with
+                | Ok (Some (su, fac)) => Ok (qnew (n_mul N (q_val q) fac) (canon su))
+                | Ok None => Ok q                   (* return self.clone() *)
+                | Err e => Err e
+                end
             end
         end.
 
